@@ -9,8 +9,10 @@ the raw register (names, units, display units, display formats, in order) and wh
 Function level: `unit_from_dtype`, `check_dtype`, `_update_columns`, the column part of `_combine_tables`.
 
 Oracle (no model involved): the C04 statement evaluated on the real table after every step — one unit per dataframe
-column, positional list == per-column lookup in dataframe column order, iteration order, and the CSV text,
-JsonData and Excel-sheet layout pair every name with that column's own unit (and display format).
+column, positional list == per-column lookup in dataframe column order, iteration order, every column still carries
+the unit that was explicitly given for it (at construction by position, through add_column, a setter or a re-wrap) as
+long as it stays in the frame, and the CSV text, JsonData and Excel-sheet layout pair every name with that column's
+own unit (and display format).
 
 This module is also the engine of C15 (`harness/props/c15.py` re-uses it with its own oracle and weights).
 """
@@ -229,6 +231,7 @@ class Ctx:
         self.df = None
         self.tainted = False        # a special unit was involved in a unit-setter call since the last full validation
         self.expect_default = {}    # column name -> True: created without explicit unit, check at next success
+        self.assigned = {}          # column name -> the unit explicitly given for that column (its "own unit")
         self.failed = False
 
     @property
@@ -300,6 +303,8 @@ def init_table(ctx, plan=None):
         t = quiet(Table, df, name="t", strict_types=strict, **kw)
         res = None
         ctx.df = t.df
+        if len(set(names)) == len(names):
+            ctx.assigned = dict(zip(names, units)) if units is not None else dict(unit_map or {})
         if units is None:
             for n in names:
                 if unit_map is None or n not in unit_map:
@@ -362,6 +367,10 @@ def op_add_column(ctx, setitem=False):
         ctx.expect_default[name] = True
     else:
         ctx.expect_default.pop(name, None)
+    if res is None and unit is not None:
+        ctx.assigned[name] = unit
+    else:
+        ctx.assigned.pop(name, None)
     return desc
 
 
@@ -390,6 +399,10 @@ def op_set_units(ctx):
         if u in SPECIAL or pre.get(n) in SPECIAL:
             ctx.tainted = True
         ctx.expect_default.pop(n, None)
+        if res is None:
+            ctx.assigned[n] = u
+        else:
+            ctx.assigned.pop(n, None)
     ctx.send("set_units", res, map=[[n, u] for n, u in m.items()])
     return f"set_units({m})"
 
@@ -409,6 +422,10 @@ def op_set_all_units(ctx):
         if u in SPECIAL or pre.get(name) in SPECIAL:
             ctx.tainted = True
         ctx.expect_default.pop(name, None)
+        if res is None:
+            ctx.assigned[name] = u
+        else:
+            ctx.assigned.pop(name, None)
     ctx.send("set_all_units", res, units=us)
     return f"set_all_units({us})"
 
@@ -428,6 +445,10 @@ def op_set_col_unit(ctx):
     if u in SPECIAL or pre in SPECIAL:
         ctx.tainted = True
     ctx.expect_default.pop(name, None)
+    if res is None:
+        ctx.assigned[name] = u
+    else:
+        ctx.assigned.pop(name, None)
     ctx.send("set_col_unit", res, name=name, unit=u)
     return f"t[{name!r}].unit={u!r}"
 
@@ -462,6 +483,8 @@ def op_rewrap(ctx):
         ctx.df = t2.df
         ctx.tainted = False
         ctx.expect_default = {}
+        if us is not None:
+            ctx.assigned = dict(zip(list(ctx.df.columns), us))
         ctx.send("rewrap", None, units=us, strict=st)
     else:
         ctx.send("rewrap", res, info=old_info, units=us, strict=st)
@@ -490,6 +513,8 @@ def op_df_insert(ctx):
     pos = rng.randint(0, len(ctx.df.columns))
     allow = rng.random() < 0.1
     known = name in ctx.info.columns
+    if name in ctx.df.columns:
+        ctx.assigned.pop(name, None)          # duplicate label: which column "owns" the unit is undefined
     d = inplace(ctx, lambda df: df.insert(pos, name, vals, allow_duplicates=allow), f"df.insert({pos},{name!r},{kind})")
     if not known and "-> pandas" not in d:
         ctx.expect_default[name] = True
@@ -502,6 +527,7 @@ def op_df_del(ctx):
         return "del(nothing)"
     name = ctx.rng.choice(cur)
     ctx.expect_default.pop(name, None)
+    ctx.assigned.pop(name, None)
 
     def f(df):
         del df[name]
@@ -517,6 +543,9 @@ def op_df_rename(ctx):
     new = rng.choice(NAMES)
     if new not in ctx.info.columns:
         ctx.expect_default[new] = True
+    if new != old:
+        ctx.assigned.pop(old, None)
+        ctx.assigned.pop(new, None)
     return inplace(ctx, lambda df: df.rename(columns={old: new}, inplace=True), f"df.rename({old!r}->{new!r},inplace)")
 
 
@@ -527,6 +556,7 @@ def op_df_setcols(ctx):
     for c in new:
         if c not in ctx.info.columns:
             ctx.expect_default[c] = True
+    ctx.assigned = {}
 
     def f(df):
         df.columns = new
@@ -622,6 +652,7 @@ def op_df_drop_cols_inplace(ctx):
         return "dropcols(nothing)"
     k = ctx.rng.choice(cur)
     ctx.expect_default.pop(k, None)
+    ctx.assigned.pop(k, None)
     return inplace(ctx, lambda df: df.drop(columns=[k], inplace=True), f"df.drop(columns=[{k!r}],inplace)")
 
 
@@ -682,8 +713,9 @@ def other_table(ctx, share=True):
         return quiet(Table, df, name="other"), names
 
 
-def derived(ctx, fn, desc):
-    """run a pandas operation returning a new frame under the hooks; send the decisive `__finalize__` to the model"""
+def derived(ctx, fn, desc, keeps_units=True):
+    """run a pandas operation returning a new frame under the hooks; send the decisive `__finalize__` to the model.
+    keeps_units: the current table is the only source and column labels keep their meaning"""
     import pandas as pd
     out = ctx.out
     old_info = ctx.info
@@ -729,6 +761,8 @@ def derived(ctx, fn, desc):
         raise Abort("derived frame's info was not produced by an observed __finalize__")
     ctx.df = r
     ctx.tainted = False
+    if not keeps_units:
+        ctx.assigned = {}
     ctx.expect_default = {c[0]: True for c in rec["frame"]["cols"] if not any(c[0] == e[0] for s in rec["srcs"] for e in s)}
     # the register as it is now belongs to the finalize-time frame; the frame may have changed since (set_axis)
     ctx.send("finalize", None, frame=rec["frame"], srcs=rec["srcs"], strict=rec["strict"])
@@ -774,7 +808,7 @@ def op_concat(ctx):
     else:
         odf = o.df
     return derived(ctx, lambda df: pd.concat([df, odf] if first else [odf, df], axis=axis),
-                   f"concat(axis={axis},first={first},other={list(odf.columns)})")
+                   f"concat(axis={axis},first={first},other={list(odf.columns)})", keeps_units=False)
 
 
 def op_merge(ctx):
@@ -784,8 +818,9 @@ def op_merge(ctx):
     how = rng.choice(["left", "inner", "outer", "right"])
     if common_cols:
         on = [rng.choice(common_cols)]
-        return derived(ctx, lambda df: df.merge(o.df, on=on, how=how), f"df.merge(other{names},on={on},how={how})")
-    return derived(ctx, lambda df: df.merge(o.df, how="cross"), f"df.merge(other{names},how=cross)")
+        return derived(ctx, lambda df: df.merge(o.df, on=on, how=how), f"df.merge(other{names},on={on},how={how})",
+                       keeps_units=False)
+    return derived(ctx, lambda df: df.merge(o.df, how="cross"), f"df.merge(other{names},how=cross)", keeps_units=False)
 
 
 def op_assign(ctx):
@@ -834,7 +869,7 @@ def op_rename(ctx):
     if not cur:
         return "rename(nothing)"
     old, new = rng.choice(cur), rng.choice(NAMES)
-    return derived(ctx, lambda df: df.rename(columns={old: new}), f"df.rename({old!r}->{new!r})")
+    return derived(ctx, lambda df: df.rename(columns={old: new}), f"df.rename({old!r}->{new!r})", keeps_units=False)
 
 
 def op_rows(ctx):
@@ -855,7 +890,7 @@ def op_set_axis(ctx):
     rng = ctx.rng
     n = len(ctx.df.columns)
     new = rng.sample(NAMES, n)
-    return derived(ctx, lambda df: df.set_axis(new, axis=1), f"df.set_axis({new})")
+    return derived(ctx, lambda df: df.set_axis(new, axis=1), f"df.set_axis({new})", keeps_units=False)
 
 
 def op_iloc_cols(ctx):
@@ -897,6 +932,8 @@ def probe(ctx, writers):
     df = ctx.df
     info = ctx.info
     state_before = info._last_dataframe_state
+    cur_names = set(df.columns)
+    ctx.assigned = {k: v for k, v in ctx.assigned.items() if k in cur_names}
     ctx.send("peek", None)
     t = Table(df)
     try:
@@ -1003,6 +1040,11 @@ def oracle_c04(ctx, t, units, ures, lookups, it, wr):
             return _fail(ctx, "positional unit list disagrees with per-column lookup (dataframe column order)",
                          {"columns": names, "units": units, "lookup": [by_name.get(x) for x in names]},
                          "units[j] == table[columns[j]].unit", "C04:positional-vs-lookup")
+    for n in names:
+        if n in ctx.assigned and by_name.get(n) != ctx.assigned[n]:
+            return _fail(ctx, "a column does not carry the unit that was given for it",
+                         {"column": n, "unit": by_name.get(n), "columns": names, "units": units}, ctx.assigned[n],
+                         "C04:own-unit")
     if isinstance(it, dict) or [p[0] for p in it] != names or [p[1] for p in it] != units:
         return _fail(ctx, "iterating the table does not give the dataframe columns with their units", it,
                      [[n, u] for n, u in zip(names, units)], "C04:iteration")
@@ -1212,7 +1254,7 @@ def run(tier, seed, model_ok, translator, search=False, prop="C04", weights=None
                 "transitions. Non-trivial: history with >= 1 successful consultation of "
                 "a table with rows after an operation; distinct by (start table, operation descriptions).")
     thorough = tier == "thorough"
-    n_rand = 2600 if thorough else 450
+    n_rand = 2600 if thorough else 400
     depth_max = 10
     ex_depth = 3 if thorough else 2
     if search:
